@@ -1232,9 +1232,17 @@ def _get_cached_arg_spec(fn: Callable[..., Any]) -> inspect.FullArgSpec:
   if arg_spec is None:
     try:
       arg_spec = inspect.getfullargspec(fn)
+      bound = inspect.ismethod(fn) or (
+          not inspect.isroutine(fn) and not inspect.isclass(fn) and
+          inspect.ismethod(getattr(fn, '__call__', None)))  # A callable object.
     except TypeError:
       # `fn` might be a callable object.
       arg_spec = inspect.getfullargspec(fn.__call__)
+      bound = inspect.ismethod(fn.__call__)
+    if bound and arg_spec.args:
+      # For a bound method `getfullargspec` still lists the parameter that the
+      # instance fills (`self`); no caller supplies it.
+      arg_spec = arg_spec._replace(args=arg_spec.args[1:])
     _ARG_SPEC_CACHE[fn] = arg_spec
   return arg_spec
 
